@@ -266,8 +266,10 @@ def write_evidence(ctx, status):
         "wall_s": round(ctx.elapsed(), 2),
         "violations": len(ctx.violations),
     }
-    os.makedirs(os.path.join(ROOT, "evidence"), exist_ok=True)
-    with open(os.path.join(ROOT, "evidence", "%s.json" % ctx.pid), "w") as f:
+    # sensitivity / seeded-change runs against a scratch tree must not overwrite the evidence of /repo
+    evdir = os.environ.get("VERIF_EVIDENCE_DIR") or os.path.join(ROOT, "evidence")
+    os.makedirs(evdir, exist_ok=True)
+    with open(os.path.join(evdir, "%s.json" % ctx.pid), "w") as f:
         json.dump(ev, f, indent=1, sort_keys=True)
         f.write("\n")
 
